@@ -1,7 +1,7 @@
 #!/usr/bin/env python3
 """Writes the prompts for a round of seeded changes (development aid, not a registered check).
 
-  seed_prompts.py <round>      round in {4, 5}; creates /tmp/seeds/prompt_CNN.txt for every property
+  seed_prompts.py <round>      round in {4, 5, 6}; creates /tmp/seeds/prompt_CNN.txt for every property
 
 The sub-agents get ONLY the rendered prompt (property text from properties.jsonl) and their own scratch
 worktree /tmp/seeds/CNN; nothing from /verif. Create the worktrees first:
@@ -104,6 +104,28 @@ ROUNDS = {
        or more sizes or counts (each individually ordinary) to show.
      K is free: the change YOU would bet on as the least likely to be found, with a root cause different
        from V and W, preferably in a different file or package (bufiox, unsafex, internal/*, container/*)."""),
+    6: dict(a="L", b="M", c="N",
+            testers="""Assume the testers are excellent and have already survived five rounds of
+     planted bugs: large randomized and bounded-exhaustive tests against independent reference models;
+     boundary values from 0 to 64 MiB and declared sizes up to 2^32; histories of hundreds of
+     operations, reloads and reuses of one object; two live objects interleaved; object reuse after
+     failures, pooled objects, results retained and re-checked much later (also after the creating object
+     was dropped and the GC ran); a co-tenant that shares the buffer pools; fault injection (short reads,
+     up to 99 consecutive empty reads, transient errors, sinks failing with any error type, data delivered
+     together with errors, live sources such as a bytes.Buffer still being written); inputs placed on the
+     heap, in guard-page arenas and on goroutine stacks; first use in fresh processes; value and error
+     types of unusual shape (uncomparable, embedding library types, containing pointers, odd sizes);
+     re-entrant callbacks; and the race detector. Your bug must survive all of that. Think hard about
+     what is STILL not covered.""",
+            kinds="""     L must sit in the LEAST USED part of the API surface that the property still speaks about: an exported
+       function, method, option or constructor variant that ordinary callers and typical tests rarely
+       touch (look through ALL exported identifiers of the relevant packages and pick one that the
+       obvious tests would skip), or a rarely taken branch selected by an unusual but legal argument.
+     M must be a TIME BOMB: correct for the first uses and wrong only after an accumulation - a counter,
+       statistic, cache, pool or adaptive size that needs at least a thousand operations (or a specific
+       long history) on one object or in one process before the behaviour changes.
+     N is free: the change YOU would bet on as the least likely to be found, with a root cause different
+       from L and M, preferably in a different file or package (bufiox, unsafex, internal/*, container/*)."""),
 }
 
 
